@@ -159,11 +159,26 @@ pub fn check_watches(d: &VerifDump) -> Result<(), (String, String)> {
 /// below it would survive a later `undo_until` of those entries).
 pub fn check_trail_levels(d: &VerifDump) -> Result<(), (String, String)> {
     let mut last = 0u32;
+    let mut seen: HashMap<VerifVar, bool> = HashMap::new();
     for (k, (v, b, level)) in d.trail.iter().enumerate() {
         if *level < last {
             return Err(("trail:levels-decrease".into(), format!("trail entry {k} ({v:?} = {b}) has level {level} below the level {last} of the entry before it")));
         }
         last = *level;
+        if let Some(old) = seen.insert(*v, *b) {
+            return Err(("trail:variable-twice".into(), format!("{v:?} is on the trail twice ({old} and {b})")));
+        }
+    }
+    // every learnt clause records the clauses it was derived from, all of them older than itself
+    for (i, c) in d.clauses.iter().enumerate() {
+        if c.kind == VerifClauseKind::Learnt {
+            if c.why.is_empty() {
+                return Err(("learnt:no-antecedents".into(), format!("learnt clause {i} records no antecedent clauses")));
+            }
+            if let Some(w) = c.why.iter().find(|&&w| w >= i) {
+                return Err(("learnt:antecedent-not-older".into(), format!("learnt clause {i} lists clause {w} as antecedent, which is not older than itself")));
+            }
+        }
     }
     Ok(())
 }
@@ -250,6 +265,18 @@ pub fn check(prop: P, case: &Case, cfg: &RunCfg, order: (usize, u64, u32), acc: 
             }
             if let Err((sig, what)) = check_trail_levels(d) {
                 acc.violation(v(sig, what, res.outcome.short()));
+            }
+            if let Outcome::Ok(sol) = &res.outcome {
+                let mut on_trail: Vec<Id> = d.trail.iter().filter_map(|(v, b, _)| match v {
+                    VerifVar::Solvable(s) if *b => Some(s.0),
+                    _ => None,
+                }).collect();
+                let mut sol2 = sol.clone();
+                on_trail.sort();
+                sol2.sort();
+                if on_trail != sol2 {
+                    acc.violation(v("trail:solution-mismatch".into(), format!("the returned solution {sol2:?} is not the set of solvables assigned true on the final trail {on_trail:?}"), res.outcome.short()));
+                }
             }
             // (not with soft requirements: a directly named soft solvable is exempt from its package's lock
             // and exclusion list, so the Lock / Excluded clause added later for it is legitimately false)
